@@ -198,9 +198,21 @@ func (c10) AfterStep(x *Exec, t *task, ev event, pre []string, heldAtStart map[u
 		}
 	}
 	if ev.kind == "lock.held" {
-		// did another task change the stack between this op's start and now?
-		// (the in-flight state the property is about)
 		x.probe("lock-acquired")
+	}
+	if x.lastTask != nil && len(x.sched) >= 2 && x.sched[len(x.sched)-2] != t.id {
+		// this step followed a context switch: where was the task we switched to?
+		switch t.phase {
+		case "crit":
+			x.fault("resumed-inside-critical-section")
+		case "pre":
+			x.fault("resumed-between-check-and-lock")
+		default:
+			x.fault("resumed-after-unlock")
+		}
+	}
+	if ev.kind == "cfg.read" {
+		x.fault("yield-at-configuration-read")
 	}
 }
 
